@@ -255,6 +255,44 @@ func runC10(c *Ctx) {
 	c.Check(strings.HasPrefix(wd, "<-") && strings.HasSuffix(wd, ".muxerRecvChan.Payload"), "reassembly-append", rkey, wr.Pos(), "each received segment's Payload is appended to the read buffer", "bytes appended to the read buffer are "+wd+", not the received segment's Payload")
 	sameBuf := func(v ssa.Value) bool { return v == rbuf || samePhiFamily(v, rbuf) }
 	c.Check(bufOf(dec.Common().Args[0]) != nil && sameBuf(bufOf(dec.Common().Args[0])), "reassembly-decode", rkey, dec.Pos(), "message boundaries are found by decoding the read buffer's bytes", "the framing decode does not read the reassembly buffer")
+	// after a segment was appended, the only way back to waiting for the next segment is through a decode attempt of the
+	// buffer (which answered "incomplete"): a message that is complete after this segment is never left sitting
+	{
+		var waits []*ssa.BasicBlock
+		for _, op := range blockingOps(rl) {
+			for _, r := range op.recvs {
+				if strings.HasSuffix(r, ".muxerRecvChan") {
+					waits = append(waits, op.instr.Block())
+				}
+			}
+		}
+		decBlock := dec.Block()
+		seen := map[*ssa.BasicBlock]bool{}
+		var walk func(b *ssa.BasicBlock)
+		walk = func(b *ssa.BasicBlock) {
+			if seen[b] || b == decBlock {
+				return
+			}
+			seen[b] = true
+			for _, sb := range b.Succs {
+				walk(sb)
+			}
+		}
+		for _, sb := range wr.Block().Succs {
+			walk(sb)
+		}
+		skipped := false
+		for _, w := range waits {
+			if seen[w] {
+				skipped = true
+			}
+		}
+		if len(waits) == 0 {
+			c.Undecided("readLoop: the wait for the next segment was not found")
+		} else {
+			c.Check(!skipped, "reassembly-decode", rkey+":after-every-segment", wr.Pos(), "every appended segment is followed by a decode attempt before the next segment is awaited", "after appending a segment the loop can go back to waiting for another segment without trying to decode the buffer: a message that ends exactly with this segment is not delivered until more bytes arrive")
+		}
+	}
 	// msgData = Bytes()[:n]
 	n := ssa.Value(nil)
 	for _, u := range referrersOf(dec.Value()) {
